@@ -362,7 +362,11 @@ where
                 PrimitiveValue::from(data).into()
             }
             (Some(values), None) => values,
-            _ => unreachable!(),
+            (Some(_), Some(_)) => {
+                return Err(A::Error::custom(
+                    "data element cannot have both Value and InlineBinary",
+                ));
+            }
         };
 
         Ok(JsonDataElement {
